@@ -54,7 +54,8 @@ TracePassRead ==
     /\ ObsOK /\ ErrOK
 
 \* what the cache holds once every goroutine of the walk has run to its end: for the monitor only
-TraceEnd == IsEvent("End") /\ UNCHANGED vars
+\* (LateRead: reads the driver issues at the very end if some VerifyTOC returned success - monitor only as well)
+TraceEnd == (IsEvent("End") \/ IsEvent("LateRead")) /\ UNCHANGED vars
 
 TraceNext ==
     \/ TraceEnd
